@@ -232,13 +232,16 @@ def generate(run_seed, tier_cfg):
     elif topo == "T5num":
         # numeric-measure cube sets: 0-D lead shared by two sets
         lead = rnd.choice(g["d0"])
-        m1 = rnd.choice(g["d1"])
-        m2 = rnd.choice(g["d1"])
+        m1 = rnd.choice(g["d1num"] if rnd.random() < 0.6 else g["d1"])
+        m2 = rnd.choice(g["d1num"] if rnd.random() < 0.4 else g["d1"])
         args["r0"] = _response_arg(rnd, knobs, lead, allow_perturb=False)
         if rnd.random() < 0.3:
             args["r0"]["perturb"] = [["dropref", "mean"]]
         args["r1"] = _response_arg(rnd, knobs, m1)
         args["r2"] = _response_arg(rnd, knobs, m2)
+        for a in ("r0", "r1", "r2"):
+            if rnd.random() < 0.3:
+                args[a]["perturb"] = list(args[a].get("perturb", [])) + [["dropref_all"]]
         args["t0"] = {"kind": "transforms", "json": "{}"}
         args["t1"] = _transforms_arg(rnd, knobs, _meta_for(args["r1"]))
         args["t2"] = _transforms_arg(rnd, knobs, _meta_for(args["r2"]))
